@@ -3,7 +3,7 @@
    query-field score and scatters them back; the spec adds WHOLE-FRAME phrase scores at those rows. *)
 From Coq Require Import ZArith QArith List.
 From SA Require Import Base.Prelude Index.Index View.View Solr.MM Solr.Edismax Solr.Edismax_Spec Solr.Edismax_Proofs.
-From SA Require Import View.View_Phrase2 Solr.Edismax_Indexed.
+From SA Require Import View.View_Phrase2 Solr.Edismax_Indexed Solr.Edismax_Indexed2.
 Import ListNotations.
 
 (* view_commutes_all is property C06 for a mask key: scoring the view of matching rows = gathering the
@@ -36,3 +36,9 @@ Print Assumptions C10_indexed_phrase_boosts.
 (* the hypotheses are satisfiable: 2 fields, 3 terms, pf + boosted pf2 + pf3, and the phases change the result *)
 Example C10_indexed_nonvacuous : api_veq (edismax Ex.idf 4 Ex.q) (edismax_spec Ex.idf 4 Ex.q).
 Proof. exact Ex.agree. Qed.
+
+(* NO restriction on the phrase fields: repeated terms included (view commutation proved for every term list) *)
+Theorem C10_indexed_phrase_boosts_any_query : forall idf n q, wf_query idf n q -> fresh_fields n q ->
+  api_veq (edismax idf n q) (edismax_spec idf n q).
+Proof. exact C10_indexed_any. Qed.
+Print Assumptions C10_indexed_phrase_boosts_any_query.
